@@ -35,6 +35,18 @@ esac
 case " $PROPS " in *" C08 "*)
   /venv/bin/python "$ROOT/harness/translate/py2gallina_c08.py" 2> >(grep -v conda >&2) || echo "setup: translator rejected the source (coq/Gen/LocalGrid1DGen.v is a non-compiling stub)" >&2 ;;
 esac
+# C13: source-derived driver loop (object machine: abstract methods are parameters), own front end
+case " $PROPS " in *" C13 "*)
+  /venv/bin/python "$ROOT/harness/translate/py2gallina_machine.py" --target driver 2> >(grep -v conda >&2) || echo "setup: translator rejected the source (coq/Gen/DriverGen.v is a non-compiling stub)" >&2 ;;
+esac
+# C06 (and C03, which shares the dimension-wise model) own coq/Gen/DimWiseGen.v (spatiallyAdaptiveSingleDimension2.py; theorems in Props/C06gen.v)
+case " $PROPS " in *" C06 "*|*" C03 "*)
+  /venv/bin/python "$ROOT/harness/translate/py2gallina_c06.py" 2> >(grep -v conda >&2) || echo "setup: translator rejected the source (coq/Gen/DimWiseGen.v is a non-compiling stub)" >&2 ;;
+esac
+# C16 owns coq/Gen/DensityGen.v (matrix-entry code and scalar hats of sparseSpACE/GridOperation.py; theorems in Props/C16gen.v)
+case " $PROPS " in *" C16 "*)
+  /venv/bin/python "$ROOT/harness/translate/py2gallina_c16.py" 2> >(grep -v conda >&2) || echo "setup: translator rejected the source (coq/Gen/DensityGen.v is a non-compiling stub)" >&2 ;;
+esac
 cd "$ROOT/coq"
 find . -name '*.v' | sed 's|^\./||' | sort > .files.new
 if ! cmp -s .files.new .files || [ ! -f Makefile.coq ]; then
